@@ -115,7 +115,7 @@ class Tree:
         perms = r.choice([0o40755, 0o40700, 0o40555, 0o40500, 0o40775, None])
         mt = r.choice([1000000000, 946684800, 0])
         self.members.append(arc.unix_dir(path, level=r.choice([1, 2, 3]), perms=perms, time=mt))
-        it = {"p": path, "ty": "dir", "mtime": mt, "mode": (perms & 0o7777) if perms is not None else 0o755}
+        it = {"p": path, "ty": "dir", "mtime": mt, "mode": (perms & 0o7777) if perms is not None else 0o755, "hp": perms is not None}
         self.items.append(it)
         self.fill(path + b"/", depth + 1)
         return it
@@ -167,13 +167,13 @@ def expect_event(t, root, tree, opts):
     return {"e": "Expect", "items": items, "tree": tree}
 
 
-def model_event(t, tree, opt, filters, pre, answers):
+def model_event(t, tree, opt, filters, pre, answers, code=None):
     """ExpectModel event: the generator only says what the archive is meant to contain; TreeModel.tla computes the tree"""
     items = []
     for it in t.items:
         p = it["p"]
         e = {"pb": list(p + (b"/" if it["ty"] == "dir" else b"")), "comps": EG.loc_of(p), "ty": it["ty"], "size": 0, "crc": 0,
-             "mtime": [-1], "mode": -1, "traw": ""}
+             "mtime": [-1], "mode": -1, "traw": "", "hp": bool(it.get("hp", True))}
         if it["ty"] == "file":
             e.update(size=len(it["data"]), crc=arc.crc16(it["data"]), mode=it["mode"])
             if it["mtime"]:
@@ -192,7 +192,7 @@ def model_event(t, tree, opt, filters, pre, answers):
     return {"e": "ExpectModel", "items": items, "filters": [list(f) for f in filters],
             "opts": {"flat": "i" in opt, "wd": wd, "policy": "all" if any(o == "f" or o.startswith("q") for o in opt) else "prompt"},
             "pre": [{"comps": EG.loc_of(rel), "size": len(val), "crc": arc.crc16(val), "mode": 0o644} for (rel, kind, val, md) in pre],
-            "answers": list(answers), "tree": tree}
+            "answers": list(answers), "tree": tree, **({"code": code} if code is not None else {})}
 
 
 def model_case(rng, t, opt):
@@ -229,7 +229,8 @@ def model_case(rng, t, opt):
             seen.add(rel)
             pre.append((rel.decode("ascii"), "file", b"old contents %d" % len(pre), 0o644))
     lines = [rng.choice([b"y", b"n", b"", b"Y", b"N", b"x", b"yes", b"no way", b"  y", b"q", b"A", b"S", b"a", b"s"]) for _ in range(rng.randint(0, 6))]
-    lines.append(rng.choice([b"a", b"s", b"All", b"skip"]))
+    if rng.random() < 0.75:
+        lines.append(rng.choice([b"a", b"s", b"All", b"skip"]))        # (otherwise the input may end at a prompt: the tool exits there)
     stdin = b"".join(ln + b"\n" for ln in lines)
     answers = bytes((ln + b"\n")[0] for ln in lines)
     return filters, pre, stdin, answers
@@ -299,7 +300,7 @@ def prompt_pass(rng, sc, tier, ev):
     for nm, data in ((b"f1", b"new one"), (b"f2", b"new two!"), (b"d/f3", b"new three"), (b"f4", b"4")):
         if nm == b"d/f3":
             t.members.append(arc.unix_dir(b"d", level=1, perms=0o40755, time=1000000000))
-            t.items.append({"p": b"d", "ty": "dir", "mtime": 1000000000, "mode": 0o755})
+            t.items.append({"p": b"d", "ty": "dir", "mtime": 1000000000, "mode": 0o755, "hp": True})
         t.members.append(arc.unix_file(nm, data, level=2, method=b"-lh0-", payload=data, perms=0o100644, time=1234567890))
         t.items.append({"p": nm, "ty": "file", "data": data, "mtime": 1234567890, "mode": 0o644})
     a = os.path.join(sc, "prompt.lzh")
@@ -312,7 +313,7 @@ def prompt_pass(rng, sc, tier, ev):
 
     def one(k):
         seq = seqs[k]
-        lines = list(seq) + [b"n"] * 5            # (enough answers: end of input at the prompt ends the tool)
+        lines = list(seq)                         # (no padding: the input may end at a prompt, which ends the tool)
         rd = os.path.join(sc, "pr_%d" % k)
         os.makedirs(os.path.join(rd, "d"))
         pre = []
@@ -321,10 +322,10 @@ def prompt_pass(rng, sc, tier, ev):
             os.chmod(os.path.join(rd, rel), 0o644)
             pre.append((rel, "file", b"old " + rel.encode(), 0o644))
         p = subprocess.run([lha, "x", a], capture_output=True, cwd=rd, env=V.run_env(), input=b"".join(x + b"\n" for x in lines), timeout=120)
-        if p.returncode not in (0, 1):
+        if p.returncode not in (0, 1, 255):
             raise V.HarnessError("lha x at the prompt exited %s: %s" % (p.returncode, p.stderr.decode(errors="replace")[-300:]))
         tree = EG.walk_tree(rd)
-        e = model_event(t, tree, [], [], pre, bytes((x + b"\n")[0] for x in lines))
+        e = model_event(t, tree, [], [], pre, bytes((x + b"\n")[0] for x in lines), code=p.returncode)
         shutil.rmtree(rd, ignore_errors=True)
         return [{"e": "Reset", "cwd": EG.loc_of(rd), "root": EG.loc_of(rd), "pre": [], "mode": "extract", "case": "prompt-" + b",".join(seq).decode()}, e]
     with cf.ThreadPoolExecutor(max_workers=V.NCPU) as ex:
@@ -385,10 +386,10 @@ def run(tier, seed, ev):
                     f.write(json.dumps({"e": "Timeout", "case": i}) + "\n")
                     continue
                 if mc:
-                    evs.append(model_event(t, tree, opt, filters, pre, answers))
+                    evs.append(model_event(t, tree, opt, filters, pre, answers, code=p.returncode))
                 else:
                     evs.append(expect_event(t, root, tree, {"ignore_path": "i" in opt, "wdir": wdir}))
-                if p.returncode not in (0, 1):       # 1: some entry failed (e.g. an unsafe link in a read-only directory) - a normal exit
+                if p.returncode not in ((0, 1, 255) if mc else (0, 1)):       # (255 with typed answers: input ended at the prompt) 1: some entry failed (e.g. an unsafe link in a read-only directory) - a normal exit
                     evs.append({"e": "AbnormalExit", "code": p.returncode, "stderr": p.stderr.decode(errors="replace")[-300:], "stdout": p.stdout.decode(errors="replace")[-300:]})
                 for e in evs:
                     f.write(json.dumps(e, separators=(",", ":")) + "\n")
